@@ -186,5 +186,22 @@ def run(ctx):
         for c in [c for c in walk_local(fn) if isinstance(c, ast.Call) and is_self_attr(c.func) and c.func.attr in m.methods]:
             if c.func.attr in ai.no_inline and c.func.attr not in ('_get_object_with_access_controls',):
                 ctx.fail('C15.R3', 'KmipEngine.%s|uninterpreted-call %s' % (root, c.func.attr), m.site(c, fn), 'call of %s is not interpreted by the effect analysis' % c.func.attr)
+    # ---------------- R4 an unsuccessful attribute operation changes nothing
+    ctx.rule('C15.R4', 'in Set/Modify/DeleteAttribute (and the helpers they call) no failure is raised after the loaded object was modified: a call that reports failure leaves the stored object and all others untouched (the batch session is not rolled back, so a dirty instance would be written by the next commit)')
+    n_r4 = 0
+    bad4 = {}
+    for e in ai.events:
+        if e['kind'] != 'raise' or e['ctx'][0] not in ROOTS:
+            continue
+        n_r4 += 1
+        dirty = set(e['state']['dirty']) & {'loaded', 'added', 'deleted', 'mixed', 'unknown'}
+        if (dirty or e['state']['commits']) and not e['in_handler']:
+            bad4.setdefault((e['ctx'][0], e['fn'], e['line'], e['exc']), e)
+    ctx.count('raise_events_in_attribute_operations', n_r4, 20)
+    for (root, fn, line, exc), e in sorted(bad4.items(), key=str):
+        ctx.fail('C15.R4', 'KmipEngine.%s|raise %s after modification|via %s' % (fn, exc, root), '%s:%s KmipEngine.%s' % (ENGINE, line, fn),
+                 '%s raises %s after the loaded object was already modified (%s): the call fails but its change is persisted by the next commit in the batch' % (fn, exc, sorted(e['state']['dirty'])))
+    if not bad4:
+        ctx.ok('C15.R4', ENGINE, 'none of the %d failure exits of the three operations is reached with a modified object' % n_r4)
     ctx.not_decided += ['"exactly the addressed instance" for positional indices after deletions (value-level)', 'that GetAttributes afterwards reflects the change (C05)']
     ctx.assumptions += ['T_PROTECTED transcribes the property statement (owner has no attribute name; its field _owner is included)']
